@@ -21,8 +21,10 @@ use std::time::Duration;
 struct Router {
     /// subnets joined, in slot order
     nets: Vec<usize>,
-    /// routing entries: destination subnet -> (gateway ip as u32 or 0 for 'deliver directly', slot)
+    /// routing entries: destination subnet -> (gateway ip as u32 or None for 'deliver directly', slot)
     table: Vec<(usize, Option<u32>, usize)>,
+    /// further entries with other prefix lengths: (base, bits, gateway, slot); host routes, aggregates, default routes
+    extra: Vec<(u32, u32, Option<u32>, usize)>,
 }
 
 fn subnet_base(i: usize) -> u32 {
@@ -51,7 +53,7 @@ impl Check for Routing {
         "C16"
     }
     fn rule(&self) -> String {
-        "generated: 2..5 subnets (10.(20+i).0.0/24) joined by 1..4 ArpRouters as a line, a star or a ring, 1..2 hosts per subnet (Udp, Ipv4, Arp with subnet information pointing at a router interface, recording application); per-router static tables that are shortest-path correct, then optionally damaged: an entry removed (hole), two neighbouring routers pointing at each other (loop), or a gateway nobody claims; 1..6 tagged UDP datagrams between host pairs; random per-frame delays reorder ARP and data frames; oracle: an independent hop-by-hop walk over the tables gives the expected fate: for a deliverable route exactly one delivery, to the destination host's application only, payload unchanged, and the IPv4 frames carrying the tag traverse exactly the expected network sequence with TTL decreasing by 1 per router hop from the first observed TTL; otherwise no application receives it, the number of frames carrying the tag is at most the first TTL, no two of them have the same TTL on the same network, and the wire is silent at the end. non-trivial: a delivered datagram crossed >= 2 routers, or the route has a hole or a loop. distinct: hash of decoded topology".into()
+        "generated: 2..5 subnets (10.(20+i).0.0/24) joined by 1..4 ArpRouters as a line, a star or a ring, 1..2 hosts per subnet (Udp, Ipv4, Arp with subnet information pointing at a router interface, recording application); per-router static tables that are shortest-path correct (/24 entries), then optionally damaged: an entry removed (hole), two neighbouring routers pointing at each other (loop), or a gateway nobody claims; in half of the cases 1..3 further entries of other prefix lengths (/32 host routes, /31 /30 /28 blocks, /16 /12 aggregates, default routes; a /31 together with a /32 inside it) towards any interface, so the route is decided by longest-prefix match; 1..6 tagged UDP datagrams between host pairs; random per-frame delays reorder ARP and data frames; oracle: an independent hop-by-hop walk over the tables gives the expected fate: for a deliverable route exactly one delivery, to the destination host's application only, payload unchanged, and the IPv4 frames carrying the tag traverse exactly the expected network sequence with TTL decreasing by 1 per router hop from the first observed TTL; otherwise no application receives it, the number of frames carrying the tag is at most the first TTL, no two of them have the same TTL on the same network, and the wire is silent at the end. non-trivial: a delivered datagram crossed >= 2 routers, or the route has a hole or a loop. distinct: hash of decoded topology".into()
     }
     fn assumptions(&self) -> Vec<String> {
         vec!["all networks have the same (unlimited) MTU; gateways in the tables are router interfaces on the outgoing network or unclaimed addresses".into()]
@@ -66,12 +68,12 @@ impl Check for Routing {
             _ => 2 + e.choose(4),
         };
         let mut routers: Vec<Router> = match shape {
-            1 => vec![Router { nets: (0..ns).collect(), table: vec![] }],
-            0 => (0..ns - 1).map(|i| Router { nets: vec![i, i + 1], table: vec![] }).collect(),
+            1 => vec![Router { nets: (0..ns).collect(), table: vec![], extra: vec![] }],
+            0 => (0..ns - 1).map(|i| Router { nets: vec![i, i + 1], table: vec![], extra: vec![] }).collect(),
             _ => {
-                let mut v: Vec<Router> = (0..ns - 1).map(|i| Router { nets: vec![i, i + 1], table: vec![] }).collect();
+                let mut v: Vec<Router> = (0..ns - 1).map(|i| Router { nets: vec![i, i + 1], table: vec![], extra: vec![] }).collect();
                 if ns >= 3 {
-                    v.push(Router { nets: vec![ns - 1, 0], table: vec![] });
+                    v.push(Router { nets: vec![ns - 1, 0], table: vec![], extra: vec![] });
                 }
                 v
             }
@@ -184,6 +186,51 @@ impl Check for Routing {
                 }
             })
             .collect();
+        // routes of other prefix lengths: host routes and small blocks that override the /24 entry, aggregates and default
+        // routes that fill holes; a /31 and a /32 for the same host may point to different places
+        let mut extra_kinds: Vec<&'static str> = vec![];
+        if e.chance(1, 2) {
+            for _ in 0..(1 + e.choose(3)) {
+                let r = e.choose(nr);
+                let (ds, dk) = hosts[e.choose(hosts.len())];
+                let x = host_ip(ds, dk);
+                let bits = *e.pick(&[32u32, 32, 31, 30, 28, 16, 12, 0]);
+                let slot = e.choose(routers[r].nets.len());
+                let via = routers[r].nets[slot];
+                let others: Vec<usize> = (0..nr).filter(|y| *y != r && routers[*y].nets.contains(&via)).collect();
+                let gw = match e.weighted(&[4, 2, 1]) {
+                    0 if !others.is_empty() => Some(router_ip(via, others[e.choose(others.len())])),
+                    1 => None,
+                    _ => {
+                        if others.is_empty() {
+                            None
+                        } else {
+                            Some(subnet_base(via) + 200)
+                        }
+                    }
+                };
+                let mask = if bits == 0 { 0 } else { u32::MAX << (32 - bits) };
+                let base = x & mask;
+                routers[r].extra.retain(|t| !(t.0 == base && t.1 == bits));
+                routers[r].extra.push((base, bits, gw, slot));
+                extra_kinds.push(match bits {
+                    32 => "host_route",
+                    25..=31 => "block_inside_subnet",
+                    0 => "default_route",
+                    _ => "aggregate",
+                });
+                // the pair that distinguishes /31 from /32
+                if bits == 31 && e.chance(1, 2) {
+                    let slot2 = e.choose(routers[r].nets.len());
+                    let via2 = routers[r].nets[slot2];
+                    let others2: Vec<usize> = (0..nr).filter(|y| *y != r && routers[*y].nets.contains(&via2)).collect();
+                    let gw2 = if others2.is_empty() { None } else { Some(router_ip(via2, others2[e.choose(others2.len())])) };
+                    routers[r].extra.retain(|t| !(t.0 == x && t.1 == 32));
+                    routers[r].extra.push((x, 32, gw2, slot2));
+                    extra_kinds.push("host_route_inside_31");
+                }
+            }
+        }
         let nsend = 1 + e.choose(6);
         let mut sends: Vec<(usize, usize, u32)> = vec![]; // (from host idx, to host idx, tag)
         for t in 0..nsend {
@@ -227,6 +274,7 @@ impl Check for Routing {
             }
             None
         };
+        let used_extra = std::cell::Cell::new(false);
         let walk = |from: usize, to: usize, ttl0: usize| -> (Fate, Vec<usize>) {
             let (ss, _) = hosts[from];
             let (ds, dk) = hosts[to];
@@ -255,10 +303,15 @@ impl Check for Routing {
                 }
                 ttl -= 1;
                 hops += 1;
-                // longest prefix match: all entries are /24 here
-                let Some(entry) = routers[r].table.iter().find(|t| t.0 == ds) else {
+                // longest prefix match over the /24 entries and the entries of other lengths
+                let mut cands: Vec<(u32, Option<u32>, usize)> = routers[r].table.iter().filter(|t| t.0 == ds).map(|t| (24, t.1, t.2)).collect();
+                cands.extend(routers[r].extra.iter().filter(|t| (if t.1 == 0 { 0 } else { dest & (u32::MAX << (32 - t.1)) }) == t.0).map(|t| (t.1, t.2, t.3)));
+                let Some(entry) = cands.iter().max_by_key(|c| c.0) else {
                     return (Fate::Dropped { frames: nets_seq.len(), why: "no route" }, nets_seq);
                 };
+                if entry.0 != 24 {
+                    used_extra.set(true);
+                }
                 let net = routers[r].nets[entry.2];
                 let target = entry.1.unwrap_or(dest);
                 let Some(o) = owner_of_ip(target) else {
@@ -325,6 +378,9 @@ impl Check for Routing {
             for (d, gw, slot) in &rt.table {
                 table.add(Ipv4Net::new(ip(subnet_base(*d)), Ipv4Mask::from_bitcount(24)), (gw.map(ip), *slot as PciSlot));
             }
+            for (base, bits, gw, slot) in &rt.extra {
+                table.add(Ipv4Net::new(ip(*base), Ipv4Mask::from_bitcount(*bits)), (gw.map(ip), *slot as PciSlot));
+            }
             let own: IpTable<Recipient> = local_ips.iter().map(|a| (*a, Recipient::new(0, None))).collect();
             machines.push(Machine::new().with(Pci::new(rt.nets.iter().map(|s| nets[*s].clone()))).with(Ipv4::new(own)).with(Arp::new()).with(ArpRouter::new(table, local_ips)).arc());
         }
@@ -335,7 +391,7 @@ impl Check for Routing {
         if ctx.want_desc {
             ctx.desc = Some(json!({
                 "shape": (["line", "star", "ring"][shape]), "subnets": ns, "damage": damaged,
-                "routers": routers.iter().enumerate().map(|(r, x)| format!("R{r} nets {:?} table {:?}", x.nets, x.table.iter().map(|t| format!("S{}->{} slot {}", t.0, t.1.map(|g| ip(g).to_string()).unwrap_or("direct".into()), t.2)).collect::<Vec<_>>())).collect::<Vec<_>>(),
+                "routers": routers.iter().enumerate().map(|(r, x)| format!("R{r} nets {:?} table {:?}", x.nets, x.table.iter().map(|t| format!("S{}->{} slot {}", t.0, t.1.map(|g| ip(g).to_string()).unwrap_or("direct".into()), t.2)).chain(x.extra.iter().map(|t| format!("{}/{}->{} slot {}", ip(t.0), t.1, t.2.map(|g| ip(g).to_string()).unwrap_or("direct".into()), t.3))).collect::<Vec<_>>())).collect::<Vec<_>>(),
                 "hosts": hosts.iter().enumerate().map(|(i, (s, k))| format!("H{i} {} gw {:?}", ip(host_ip(*s, *k)), gw_of[i].map(|g| ip(g).to_string()))).collect::<Vec<_>>(),
                 "sends": sends.iter().map(|x| format!("H{} -> H{} tag {:#x}", x.0, x.1, x.2)).collect::<Vec<_>>(),
                 "tagged_frames": frames.iter().filter(|f| f.proto == Proto::Ipv4 && f.bytes.len() >= 32).map(|f| format!("t={:?} net {} ttl {} tag {:02x}{:02x}{:02x}{:02x}", f.t, net_ids.iter().position(|n| *n == f.net).unwrap_or(99), f.bytes[8], f.bytes[28], f.bytes[29], f.bytes[30], f.bytes[31])).collect::<Vec<_>>(),
@@ -392,6 +448,12 @@ impl Check for Routing {
         ensure!(late == 0, "silence", "traffic_at_the_end", "{late} IPv4 frames were still sent in the last quarter of the run");
         ctx.nontrivial = nontrivial;
         ctx.class(["line", "star", "ring"][shape]);
+        if used_extra.get() {
+            ctx.class("route_decided_by_a_prefix_other_than_24");
+        }
+        for k in extra_kinds {
+            ctx.class(k);
+        }
         Ok(())
     }
 }
